@@ -12,7 +12,9 @@
 // Verdict observables: a panic of EndBlocker (key C17:NoPanic:<class>), the stored price
 // (GasPriceKeeper.LastGasPrice) against the clause interval lo..hi the spec derives from the statement
 // (key C17:<clause>). Guidance observable: equality with the design value st (counted as drift; the
-// rest of the behaviour is then skipped because the spec's later inputs assume st).
+// rest of the behaviour is then skipped because the spec's later inputs assume st). Where the spec flags
+// `big` (the rule's intermediate product exceeds int64) a different value is reported under
+// C17:NoOverflow:intermediate; checks/c17.py turns it into a verdict only when there is no drift elsewhere.
 // The parameters of every step are checked with the repository's own validators first
 // (auth.Params.Validate, bft ValidateConsensusParams): a behaviour with invalid parameters is an
 // infrastructure error, not a finding.
@@ -247,6 +249,14 @@ func replay(idx int, beh []mbt.Step) {
 				return
 			}
 			if out != exp {
+				if s.Bool("big") {
+					// candidate silent overflow; checks/c17.py keeps it only if the code agrees with the rule elsewhere
+					count("drift_big", 1)
+					report(idx, "C17:NoOverflow:intermediate",
+						fmt.Sprintf("new price %d, the rule over unbounded integers gives %d; the intermediate product |used-target|*last exceeds int64 (last=%d used=%d MaxGas=%d ratio=%d comp=%d init=%d)",
+							out, exp, last, used, e.p.maxGas, e.p.ratio, e.p.comp, e.p.init), c)
+					return
+				}
 				count("drift", 1)
 				return
 			}
